@@ -233,6 +233,15 @@ func genAllOfFamily(r vlib.Rnd) []byte {
 	if vlib.Chance(r, 1, 3) {
 		fmt.Fprintf(&sb, "  Path\n    { // {allOf: \"@t%d\"}\n      \"id\": 1\n    }\n", r.Intn(n))
 	}
+	// parameters (query, request headers) that inherit from the types and add a property spelled like the key shortcut
+	if vlib.Chance(r, 1, 3) {
+		own := vlib.Pick(r, []string{"\"@key\": 2", "\"q\": 1", "@key : 3"})
+		fmt.Fprintf(&sb, "GET /q\n  Query \"q=1\"\n    { // {allOf: \"@t%d\"}\n      %s\n    }\n  200\n    Headers\n      { // {allOf: \"@t%d\"}\n        %s\n      }\n    Body any\n", r.Intn(n), own, r.Intn(n), own)
+	}
+	if vlib.Chance(r, 1, 4) {
+		own := vlib.Pick(r, []string{"\"@key\": 2", "\"h\": 1"})
+		fmt.Fprintf(&sb, "PUT /h\n  Request\n    Headers\n      { // {allOf: \"@t%d\"}\n        %s\n      }\n    Body any\n  200 any\n", r.Intn(n), own)
+	}
 	return []byte(sb.String())
 }
 
